@@ -4,6 +4,8 @@ package main
 // chosen status and body; then every lookup a caller can make on the response.
 
 import (
+	"net/http/httptest"
+	"net/url"
 	"bytes"
 	"fmt"
 	"io"
@@ -54,7 +56,8 @@ func genC15(cfg Config, emit Emit) error {
 	for i := 0; i < n; i++ {
 		for _, k := range respKinds {
 			st := statuses[cfg.Rng.Intn(len(statuses))]
-			emit("resp", []string{k, itoa(st), itoa(cfg.Rng.Intn(1 << 30))}, k, true)
+			via := []string{"direct", "http"}[(i+len(k))%2]
+			emit("resp", []string{k, itoa(st), itoa(cfg.Rng.Intn(1 << 30)), via}, k+"/"+via, true)
 		}
 	}
 	return nil
@@ -261,7 +264,22 @@ func execResp(a []string) (res Result) {
 	step = "building the response"
 	body, lookups := respBody(kind, r)
 	pools()
-	conn, err := client.NewConnection(edPool[0], fakeChannel{status, body})
+	var ch transport.Channel = fakeChannel{status, body}
+	if len(a) > 3 && a[3] == "http" {
+		// the library's own HTTP channel against a server that answers with this status and body
+		ts := httptest.NewServer(http.HandlerFunc(func(w http.ResponseWriter, r *http.Request) {
+			io.Copy(io.Discard, r.Body)
+			w.Header().Set("Content-Type", carCT)
+			w.WriteHeader(status)
+			if status != 204 && status != 304 {
+				w.Write(body)
+			}
+		}))
+		defer ts.Close()
+		u, _ := url.Parse(ts.URL)
+		ch = thttp.NewHTTPChannel(u)
+	}
+	conn, err := client.NewConnection(edPool[0], ch)
 	if err != nil {
 		return Result{Impl: "conn-error"}
 	}
